@@ -65,6 +65,15 @@ def make(d, mode="w", normalize=None, inputs=None, **kwargs):
     else:
         inputs["P"] = [list(p) for p in d["P"]]
         obj.set_ctrlpts(inputs["P"], *szs)
+    if d.get("kv_tuple") and norm:
+        # knot vectors handed over as tuples (a normalising shape converts whatever sequence it is given)
+        if d["kind"] == "curve":
+            obj.knotvector = tuple(d["kv"][0])
+        elif d["kind"] == "surface":
+            obj.knotvector_u, obj.knotvector_v = tuple(d["kv"][0]), tuple(d["kv"][1])
+        else:
+            obj.knotvector_u, obj.knotvector_v, obj.knotvector_w = [tuple(k) for k in d["kv"]]
+        return obj
     if d["kind"] == "curve":
         inputs["kv0"] = list(d["kv"][0])
         obj.knotvector = inputs["kv0"]
@@ -140,6 +149,10 @@ def resolve_param(p, kv, n, desc, others=()):
         return a, "start"
     if kind == "end":
         return b, "end"
+    if kind == "zero":
+        if a < 0.0 < b:
+            return 0.0, ("knot" if 0.0 in kv else "in")
+        kind = "in"
     if kind == "within":
         inner = sorted(set(k for k in kv[p + 1:n] if a < k < b and abs(k) < 4.0))
         if inner:
